@@ -355,9 +355,10 @@ bool drain(int max_steps, std::string *trace, int ignore)
     if (all_done) return true;
     if (!progressed)
     {
-      // let a timed waiter expire
+      // nothing can run: time passes — every timed wait expires (expiring only one of them could starve the others,
+      // e.g. a ForceFlush caller that re-polls on its own timer while the worker's timer keeps firing)
       bool woke = false;
-      for (int i = 0; i < n && !woke; i++)
+      for (int i = 0; i < n; i++)
         if (timed_waiting(i))
         {
           wake_timeout(i);
